@@ -42,6 +42,8 @@ fn sentinel_target() -> BoxedStrategy<String> {
     prop_oneof![
         4 => (1usize..6, tail.clone()).prop_map(|(k, t)| format!("{}{}", "../".repeat(k), t)),
         2 => tail.clone().prop_map(|t| format!("@S@/{t}")),
+        // another symlink of the tree (a chain): resolved when the case is built
+        2 => Just("@LINK@".to_string()),
         1 => Just("..".to_string()),
         1 => Just("/".to_string()),
         1 => Just(".".to_string()),
@@ -77,12 +79,26 @@ fn strategy(_tier: Tier) -> BoxedStrategy<Case> {
     )
         .prop_map(|((opts, mut tree), links, dest, overwrite, subtree, exclude, stitch, pre_stitch)| {
             let dirs = tree.dirs();
+            let mut last: Option<(String, String)> = None; // (dir, name) of the previous link
             for (d, name, target, meta) in links {
-                let dir = &dirs[(d as usize * dirs.len()) >> 16];
-                tree.0.entry(tree::join(dir, &name)).or_insert(Node {
-                    kind: Kind::Link { target },
-                    meta,
-                });
+                let mut dir = dirs[(d as usize * dirs.len()) >> 16].clone();
+                let target = if target == "@LINK@" {
+                    match &last {
+                        // chain: same directory, pointing at the previous link by name
+                        Some((ldir, lname)) if *lname != name => {
+                            dir = ldir.clone();
+                            lname.clone()
+                        }
+                        _ => "..".to_string(),
+                    }
+                } else {
+                    target
+                };
+                let p = tree::join(&dir, &name);
+                if !tree.0.contains_key(&p) {
+                    tree.0.insert(p, Node { kind: Kind::Link { target }, meta });
+                    last = Some((dir, name));
+                }
             }
             Case { opts, tree, dest, overwrite, subtree, exclude, stitch, pre_stitch }
         })
@@ -176,13 +192,22 @@ fn run(case: &Case, cx: &mut Cx) -> CaseResult {
             let mut t1 = t0.clone();
             let meta = t1.0[&d].meta;
             t1.remove_subtree(&d);
-            t1.0.insert(
-                d.clone(),
-                Node {
-                    kind: Kind::Link { target: target.replace("@S@", &s_abs) },
-                    meta,
-                },
-            );
+            // "@LINK@": the name of a sibling symlink (preferably one that sorts later, so that
+            // it does not exist yet when this link is restored)
+            let target = if target == "@LINK@" {
+                let parent = tree::parent_of(&d).unwrap().to_string();
+                let mut sibs: Vec<&String> = t1
+                    .0
+                    .iter()
+                    .filter(|(p, n)| n.is_link() && tree::parent_of(p) == Some(parent.as_str()))
+                    .map(|(p, _)| p)
+                    .collect();
+                sibs.sort_by(|a, b| crate::format::ref_cmp(b, a));
+                sibs.first().map(|p| tree::base_name(p).to_string()).unwrap_or_else(|| "..".to_string())
+            } else {
+                target.replace("@S@", &s_abs)
+            };
+            t1.0.insert(d.clone(), Node { kind: Kind::Link { target }, meta });
             tree::rematerialise(&t0, &t1, &src);
             let ctl = Ctl::new(&arch, Plan::FreezeAtMutating { k: *k as usize + 3, torn: false });
             let hook: Hook = Some(ctl.clone() as Arc<dyn conserve::transport::verif::Interceptor>);
@@ -203,10 +228,19 @@ fn run(case: &Case, cx: &mut Cx) -> CaseResult {
         DestState::Empty => std::fs::create_dir(&dest).unwrap(),
         DestState::Populated => {
             std::fs::create_dir(&dest).unwrap();
-            std::fs::write(dest.join("keep"), b"precious").unwrap();
-            std::fs::create_dir(dest.join("a")).unwrap();
-            std::fs::write(dest.join("a").join("keep2"), b"precious too").unwrap();
-            tree::set_mtime(&dest.join("keep"), 999_999_999, 5);
+            // what is already there is chosen by the case: ordinary names, or only a
+            // lost+found directory as on a fresh filesystem
+            if case.tree.0.len() % 3 == 0 {
+                std::fs::create_dir(dest.join("lost+found")).unwrap();
+                std::fs::write(dest.join("lost+found").join("#123"), b"orphan").unwrap();
+            } else {
+                std::fs::write(dest.join("keep"), b"precious").unwrap();
+                std::fs::create_dir(dest.join("a")).unwrap();
+                std::fs::write(dest.join("a").join("keep2"), b"precious too").unwrap();
+            }
+            if dest.join("keep").exists() {
+                tree::set_mtime(&dest.join("keep"), 999_999_999, 5);
+            }
         }
     }
     let subtree: Option<String> = case.subtree.map(|i| {
@@ -282,7 +316,7 @@ pub fn prop() -> Prop<Case> {
     Prop {
         id: "C16",
         level: "exploration",
-        rule: "case = (options, tree with 1-5 symlinks aimed at sentinel files/directories beside the destination via ../ chains, absolute paths, '..', '/', '.', and other names; destination absent/empty/pre-populated; overwrite flag; optional subtree and exclude selection; optionally a later interrupted backup in which a directory was replaced by such a symlink, itself optionally preceded by another interrupted backup in which an entry had been removed (three stitched bands), restored by id). Oracle: recursive lstat+content snapshot (mode, owner, mtime, ctime, inode) of the whole sandbox outside the destination is identical before and after; a pre-populated destination without overwrite must be refused and left identical. Non-trivial = a restored symlink resolves to a sentinel, or the refusal case with a non-empty version; distinct by case hash",
+        rule: "case = (options, tree with 1-5 symlinks aimed at sentinel files/directories beside the destination via ../ chains, absolute paths, '..', '/', '.', other names, and other symlinks of the tree (chains); destination absent/empty/pre-populated (with ordinary entries, or with only a lost+found directory); overwrite flag; optional subtree and exclude selection; optionally a later interrupted backup in which a directory was replaced by such a symlink, itself optionally preceded by another interrupted backup in which an entry had been removed (three stitched bands), restored by id). Oracle: recursive lstat+content snapshot (mode, owner, mtime, ctime, inode) of the whole sandbox outside the destination is identical before and after; a pre-populated destination without overwrite must be refused and left identical. Non-trivial = a restored symlink resolves to a sentinel, or the refusal case with a non-empty version; distinct by case hash",
         assumptions: &[
             "pre-populated destinations contain only plain files and directories (a hostile destination containing symlinks is outside the statement)",
             "runs as root, so permission errors cannot mask a write-through",
